@@ -558,6 +558,21 @@ def reset_notebook_differ():
     # As it is a defaultdict2, simply clear all set keys to reset:
     for key in tuple(notebook_differs.keys()):
         del notebook_differs[key]
+    _align_cells_by_id(True)
+
+
+def _align_cells_by_id(enable):
+    """Whether cells with equal ids are taken to be the same cell.
+
+    When the cell ids are ignored they must not decide which cells are
+    compared with each other either, the cells are then aligned by content.
+    """
+    # As for the differs, deleting the key brings back the default predicates
+    if "/cells" in notebook_predicates:
+        del notebook_predicates["/cells"]
+    if not enable:
+        notebook_predicates["/cells"] = [
+            p for p in notebook_predicates["/cells"] if p is not compare_cell_by_ids]
 
 
 def set_notebook_diff_ignores(ignore_paths):
@@ -586,6 +601,9 @@ def set_notebook_diff_ignores(ignore_paths):
             notebook_differs[path] = diff_ignore_keys(notebook_differs[path], subkeys)
         else:
             raise ValueError('Invalid ignore config entry: %r: %r' % (path, subkeys))
+        if path == '/cells/*':
+            _align_cells_by_id(
+                not isinstance(subkeys, (list, tuple, set)) or 'id' not in subkeys)
 
 
 def set_notebook_diff_targets(sources=True, outputs=True, attachments=True,
